@@ -27,7 +27,7 @@ from fractions import Fraction
 import numpy as np
 
 PROP = 'C01'
-TARGETS = ['T20', 'T21', 'T22', 'T23', 'T24', 'T25', 'T8', 'T1', 'T1b', 'T4', 'T12', 'T6', 'T7b']
+TARGETS = ['T20', 'T21', 'T22', 'T23', 'T24', 'T25', 'T26', 'T8', 'T1', 'T1b', 'T4', 'T12', 'T6', 'T7b']
 LEAN_MODULES = ['HdVerif.Props.C01']
 MODEL_MODULES = ['HdVerif.Model.SegEncode', 'HdVerif.Model.SegFrames']
 NAMESPACE = 'HdVerif.C01'
